@@ -62,6 +62,41 @@ def flat_obs(o):
     return out
 
 
+def bflat_obs(o):
+    """flatten the raw model outcome of a broadcast run exactly like HubCheck.bflat_obs"""
+    out = []
+    for p in o["parties"]:
+        out.append(100)
+        for r in p["bres"]:
+            out += [2, r[1], r[2]] if isinstance(r, list) else [{"ok": 0, "connerr": 1}[r]]
+        out += [101, p["left"], 102]
+        for r in p["res"]:
+            out += [2, r[1]] if isinstance(r, list) else [{"ok": 0, "connerr": 1, "empty": 3, "indexerr": 4}[r]]
+    out.append(104)
+    for k, l in o["queues"]:
+        out += k + [105] + l + [106]
+    out.append(107)
+    for k in o["open"]:
+        out += k
+    out.append(108)
+    for k in o["rem"]:
+        out += k
+    return out
+
+
+def coq_bcfg(cfg):
+    ps = []
+    for th in cfg:
+        if th.get("kind") == "bc":
+            ops = [{"bconnect": "BConnect", "brecv": "BRecv", "bclose": "BClose"}.get(o[0]) or f"BSend {o[1]}" for o in th["ops"]]
+            ps.append(f"CB {th['app']} [{'; '.join(map(str, th['remotes']))}] [{'; '.join(ops)}]")
+        else:
+            ops = [{"connect": "Connect", "recv": "Recv false", "recvnb": "Recv true", "disconnect": "Disconnect"}.get(o[0])
+                   or f"Send {o[1]}" for o in th["ops"] if o[0] != "setcb"]
+            ps.append(f"CRaw {coq_key(th['key'])} [{'; '.join(ops)}]")
+    return "[" + "; ".join(ps) + "]"
+
+
 def one_run(ctx, drv, cfg, chooser, mode, info, trace_socket_py=False):
     """Run cfg on the implementation, compare with the model step by step, apply the oracle.
     Returns (run, canonical outcome, model answer, problems)."""
@@ -262,10 +297,11 @@ def run(ctx):
                     mism.append((("model-outcome-not-reproduced", o, ci), rep))
         elif outs is not None:
             cov["model_outcomes_reproduced"] += sum(1 for o, _ in outs if hc.okey(o) in seen_outcomes)
-    # ---- broadcast channels over thread sockets (implementation + oracle only; no model counterpart)
+    # ---- broadcast channels over thread sockets: oracle + step-level correspondence with Net/Bcast.v
     n_bc = 16 if quick else 140
     n_bs = 10 if quick else 36
     cov["bcast_runs"] = 0
+    bxsample = []
     cov["bcast_shapes"] = {}
     cov["bcast_blocked_runs"] = 0
     t_bc = time.time()
@@ -285,6 +321,19 @@ def run(ctx):
                 ch, info = hs.pct_chooser(rng, len(cfg), d, 40 * len(cfg)), dict(chooser="pct", depth=d)
             r = hc.run_impl_bc(cfg, ch)
             cov["bcast_runs"] += 1
+            # step-level correspondence with Net/Bcast.v (one endpoint owning several sockets)
+            bm = hc.brun_model(drv, cfg, r.access_schedule())
+            bci = hc.canon_impl_bc(r, cfg)
+            if bm["labels"] != r.labels() or hc.canon_model_bc(bm["outcome"]) != bci:
+                i = next((j for j, (a, b) in enumerate(zip(bm["labels"], r.labels())) if a != b),
+                         min(len(bm["labels"]), len(r.labels())))
+                what = (("bcast-labels", i, (bm["labels"][i:i + 3], r.labels()[i:i + 3])) if bm["labels"] != r.labels()
+                        else ("bcast-outcome", hc.canon_model_bc(bm["outcome"]), bci))
+                mism.append((what, dict(kind="bcast", cfg=cfg, mode="line", schedule=r.line_sched,
+                                        access_schedule=r.access_schedule(), impl_accesses=r.labels(), impl_outcome=bci,
+                                        info=dict(info, shape=shape))))
+            if len(bxsample) < (10 if quick else 40) and s == 0:
+                bxsample.append((cfg, r.access_schedule(), bflat_obs(bm["outcome"])))
             cov["bcast_shapes"][shape] = cov["bcast_shapes"].get(shape, 0) + 1
             cov["bcast_blocked_runs"] += int("blocked" in r.status)
             ctx.note_case(hash((json.dumps(cfg), tuple(r.line_sched))), nontrivial=bool(r.appended))
@@ -314,6 +363,16 @@ def run(ctx):
                                    for cfg, sch, ex in xsample[i:i + per]))
                 f.write("].\nEval vm_compute in (failing cs).\n")
             files.append(fn)
+        if bxsample:
+            fn = "cases_hub_bcast.v"
+            with open(os.path.join(ctx.build, fn), "w") as f:
+                f.write("From Coq Require Import List Bool.\nFrom NQ Require Import Net.Hub Net.Bcast Net.HubCheck.\nImport ListNotations.\n")
+                f.write("Definition cs : list bcase := [\n")
+                f.write(";\n".join(f"({coq_bcfg(cfg)}, [{'; '.join(map(str, sch))}], [{'; '.join(map(str, ex))}])"
+                                   for cfg, sch, ex in bxsample))
+                f.write("].\nEval vm_compute in (bfailing cs).\n")
+            files.append(fn)
+            cov["coq_crosscheck_bcast_schedules"] = len(bxsample)
         res = ctx.run_case_files(files, timeout=600)
         okc = 0
         for fn, rr in res.items():
@@ -360,6 +419,18 @@ def search(ctx, drv, reps):
     t_search = time.time()
     for rep in reps:
         cfg = rep["cfg"]
+        if rep.get("kind") == "bcast":
+            for i in range(60):
+                if time.time() - t_search > 40 or too_many_leaks(ctx):
+                    return False
+                r = hc.run_impl_bc(cfg, hs.random_chooser(rng, rng.choice([0.1, 0.3, 0.6])))
+                bad = hc.oracle_bcast(r, cfg)
+                if bad:
+                    ctx.violation(f"{bad[0][0]}: {bad[0][1]}",
+                                  dict(kind="bcast", cfg=cfg, mode="line", schedule=r.line_sched, impl_accesses=r.log,
+                                       oracle=[list(b) for b in bad], info=dict(search=True)))
+                    return True
+            continue
         drv.set_cfg(cfg)
         for i in range(150):
             if time.time() - t_search > 40 or too_many_leaks(ctx):
